@@ -184,6 +184,14 @@ func strongBlame(k kase) bool {
 		(strings.Contains(k.Path, "presign3.GammaShare") || strings.Contains(k.Path, "presign3.SecretECDSA") || strings.Contains(k.Path, "presign3.KShare"))
 }
 
+// sigmaBlame: the signature share a presigner publishes in the signing step of the online / full variants was
+// replaced by another scalar.  Presignatures exist so that exactly this is identifiable (the share is checked against
+// the published R-bar and S tables): every honest signer must end with the sender as the only culprit.
+func sigmaBlame(k kase) bool {
+	return k.Menu == "semantic" && k.Path == "/Sigma" && strings.HasPrefix(k.Op, "sc-") &&
+		(k.Scenario.Proto == "cmp-presign-online" || k.Scenario.Proto == "cmp-presign-full")
+}
+
 var blameFields = map[string]bool{"GammaShare": true, "KShare": true, "SecretECDSA": true, "ChiShare": true, "DeltaShares": true}
 
 func keyClass(key, d party.ID) string {
